@@ -312,8 +312,11 @@ class MatMulTranspose(orp.RewriteRuleClassBase):
         if fused:
             fused_node = _get_node(fused, "FusedMatMul")
             kwargs = _get_kwargs(fused_node)
-        for name in ["transA", "transB"]:
-            kwargs[name] = 1 - kwargs.get(name, 0)
+        # (A' . B')^T = B'^T . A'^T: the operands are swapped, so each takes over the
+        # (inverted) transpose flag of the other.
+        trans_a, trans_b = kwargs.get("transA", 0), kwargs.get("transB", 0)
+        kwargs["transA"] = 1 - trans_b
+        kwargs["transB"] = 1 - trans_a
         return op.FusedMatMul(y, x, **kwargs, _domain="com.microsoft")
 
 
